@@ -607,3 +607,40 @@ impl<P: Observe> Observe for darling::ast::Generics<P> {
         Val::Seq(self.params.iter().map(|p| p.observe()).collect())
     }
 }
+
+// ------------------------------------------------------------------------------------------------
+// PV<N> / PE<N>: user impls that take over literal / expression handling (override `from_value` /
+// `from_expr`) and return errors without caring about spans; darling's outer layers must still
+// attach the most specific span they know.
+
+#[derive(Clone, Debug, PartialEq)]
+pub struct PV<const N: u32>(pub Tok);
+
+impl<const N: u32> FromMeta for PV<N> {
+    fn from_value(value: &syn::Lit) -> Result<Self> {
+        let sp = value.span();
+        element_seam(N, "from_value", world::pos_of(sp.start()), world::range_of(sp), sp).map(PV)
+    }
+}
+
+impl<const N: u32> Observe for PV<N> {
+    fn observe(&self) -> Val {
+        Val::Tok(self.0.clone())
+    }
+}
+
+#[derive(Clone, Debug, PartialEq)]
+pub struct PE<const N: u32>(pub Tok);
+
+impl<const N: u32> FromMeta for PE<N> {
+    fn from_expr(expr: &syn::Expr) -> Result<Self> {
+        let sp = expr.span();
+        element_seam(N, "from_expr", world::pos_of(sp.start()), world::range_of(sp), sp).map(PE)
+    }
+}
+
+impl<const N: u32> Observe for PE<N> {
+    fn observe(&self) -> Val {
+        Val::Tok(self.0.clone())
+    }
+}
